@@ -16,8 +16,8 @@ import (
 func Spec_evaluatePerCriterionNormalizationScaleRatio(criteria *model.Criteria, allAlternatives []model.AlternativeWithCriteria) CriteriaScaling {
 	scaleRatios := make(CriteriaScaling, len(*criteria))
 	for _, c := range *criteria {
-		criterionRange := model.CriteriaValuesRange(&allAlternatives, &c)
-		scale := model.GetNormalScaleRatio(criterionRange)
+		criterionRange := model.Spec_CriteriaValuesRange(&allAlternatives, &c)
+		scale := model.Spec_GetNormalScaleRatio(criterionRange)
 		scaleRatios[c.Id] = ScaleWithValueRange{
 			Scale:       scale,
 			ValuesRange: *criterionRange,
